@@ -40,6 +40,9 @@ func init() {
 		addStrs("llo_VerifyChannelDefinitions_cmps", llo.comparisons(llo.funcDecl("", "VerifyChannelDefinitions"), "Aggregator"), wl("channel_definitions.go"), "C14")
 		addStrs("llo_OffchainConfig_Validate_cmps", llo.comparisons(llo.funcDecl("OffchainConfig", "Validate"), "DefaultMinReportIntervalNanoseconds"), wl("offchain_config.go Validate"), "C03", "C16")
 
+		// ---- the decision points of observation() (whole-callback model DSV/LLO/Observe.lean)
+		addStrs("llo_observation_ifs", llo.ifConds(llo.funcDecl("Plugin", "observation")), wl("plugin_observation.go observation"), "C04", "C14", "C05")
+
 		// ---- map range inventory (typed)
 		for _, fn := range [][2]string{{"Plugin", "outcome"}, {"Plugin", "decodeObservations"}, {"Outcome", "ReportableChannels"},
 			{"", "StreamAggregatesToProtoOutcome"}, {"", "channelDefinitionsToProtoOutcome"},
